@@ -19,12 +19,14 @@ SDLS = [
     directive @same on FIELD_DEFINITION | FIELD
     directive @stamp on INPUT_FIELD_DEFINITION
     input Box { label: String @stamp n: Int = 5 }
+    directive @req(label: String!) on FIELD
+    enum Kind { A B }
     scalar Tag
     type Cat { name: String meow: Int }
     type Dog { name: String bark: Int }
     union Pet = Cat | Dog
     interface Named { name: String }
-    type Query { pet: Pet pets: [Pet] tag: Tag @tweak hello(n: Int = 1): String @same named: Named echo(t: Tag): String open(box: Box): String }
+    type Query { pet: Pet pets: [Pet] tag: Tag @tweak hello(n: Int = 1): String @same named: Named echo(t: Tag): String open(box: Box): String need(id: Int!): String kind(k: Kind): String }
     type Subscription { tick: Int }
     type Robot implements Named { name: String }
     """,
@@ -34,12 +36,14 @@ SDLS = [
     directive @same on FIELD_DEFINITION | FIELD
     directive @stamp on INPUT_FIELD_DEFINITION
     input Box { label: String @stamp n: Int = 5 }
+    directive @req(label: String) on FIELD
+    enum Kind { B C }
     scalar Tag
     type Cat implements Named { name: String meow: Int }
     type Dog implements Named { name: String bark: Int }
     union Pet = Cat | Dog
     interface Named { name: String }
-    type Query { pet: Pet pets: [Pet] tag: Tag @tweak(by: "x") hello(n: Int = 2): String @same named: Named echo(t: Tag): String open(box: Box): String }
+    type Query { pet: Pet pets: [Pet] tag: Tag @tweak(by: "x") hello(n: Int = 2): String @same named: Named echo(t: Tag): String open(box: Box): String need(id: Int): String kind(k: Kind): String }
     type Subscription { tick: Int }
     """,
     # bundle 2: default type resolution (_typename), no directive implementation needed on tag; OVERRIDES the built-in
@@ -50,13 +54,15 @@ SDLS = [
     directive @same on FIELD_DEFINITION | FIELD
     directive @stamp on INPUT_FIELD_DEFINITION
     input Box { label: String @stamp n: Int = 5 }
+    directive @req(label: String!) on FIELD
+    enum Kind { A B }
     scalar Tag
     type Cat { name: String meow: Int }
     type Dog { name: String bark: Int }
     union Pet = Dog | Cat
     interface Named { name: String }
     type Rock implements Named { name: String }
-    type Query { pet: Pet pets: [Pet] tag: Tag hello(n: Int = 3): String @same named: Named echo(t: Tag): String open(box: Box): String }
+    type Query { pet: Pet pets: [Pet] tag: Tag hello(n: Int = 3): String @same named: Named echo(t: Tag): String open(box: Box): String need(id: Int!): String kind(k: Kind): String }
     type Subscription { tick: Int }
     """,
     # bundle 3: Pet is an interface here
@@ -65,13 +71,15 @@ SDLS = [
     directive @same on FIELD_DEFINITION | FIELD
     directive @stamp on INPUT_FIELD_DEFINITION
     input Box { label: String @stamp n: Int = 5 }
+    directive @req(label: String) on FIELD
+    enum Kind { B C }
     scalar Tag
     interface Pet { name: String }
     type Cat implements Pet { name: String meow: Int }
     type Dog implements Pet { name: String bark: Int }
     interface Named { name: String }
     type Rock implements Named { name: String }
-    type Query { pet: Pet pets: [Pet] tag: Tag @tweak hello(n: Int = 4): String @same named: Named echo(t: Tag): String open(box: Box): String }
+    type Query { pet: Pet pets: [Pet] tag: Tag @tweak hello(n: Int = 4): String @same named: Named echo(t: Tag): String open(box: Box): String need(id: Int): String kind(k: Kind): String }
     type Subscription { tick: Int }
     """,
     # bundle 4: the root operation types are RENAMED by a schema definition (and one more by an extension)
@@ -82,13 +90,15 @@ SDLS = [
     directive @same on FIELD_DEFINITION | FIELD
     directive @stamp on INPUT_FIELD_DEFINITION
     input Box { label: String @stamp n: Int = 5 }
+    directive @req(label: String!) on FIELD
+    enum Kind { A B }
     scalar Tag
     type Cat { name: String meow: Int }
     type Dog { name: String bark: Int }
     union Pet = Cat | Dog
     interface Named { name: String }
     type Rock implements Named { name: String }
-    type RootQuery { pet: Pet pets: [Pet] tag: Tag @tweak hello(n: Int = 5): String @same named: Named echo(t: Tag): String open(box: Box): String }
+    type RootQuery { pet: Pet pets: [Pet] tag: Tag @tweak hello(n: Int = 5): String @same named: Named echo(t: Tag): String open(box: Box): String need(id: Int!): String kind(k: Kind): String }
     type Events { tick: Int }
     """,
 ]
@@ -103,6 +113,9 @@ REQUESTS = [
     "{ __type(name: \"Pet\") { kind possibleTypes { name } } }",
     "{ __schema { directives { name args { name defaultValue } } } }",
     "{ __schema { queryType { name } mutationType { name } subscriptionType { name } } __typename }",
+    # the same names, another definition per bundle: an argument mandatory here and optional there, on a field and on a
+    # directive; an enum with other values -- what validation concludes about `Query.need` / `@req` / `Kind` is per schema
+    "{ need }", "{ need(id: 1) }", "{ hello @req }", "{ hello @req(label: \"x\") }", "{ kind(k: A) }", "{ kind(k: C) }",
     # byte-identical operations with variables of a custom scalar / an input object carrying a directive: the
     # coercers (Scalar.coerce_input / parse_literal, on_post_input_coercion) are each bundle's own
     ("query V($t: Tag) { echo(t: $t) }", {"t": "x"}),
@@ -164,6 +177,20 @@ def register(i):
     @Resolver(QN + ".echo", schema_name=sn)
     async def echo(p, a, c, info):
         return "b%d:%r" % (i, a.get("t"))
+
+    @Resolver(QN + ".need", schema_name=sn)
+    async def need(p, a, c, info):
+        return "b%d:need:%r" % (i, a.get("id"))
+
+    @Resolver(QN + ".kind", schema_name=sn)
+    async def kind(p, a, c, info):
+        return "b%d:kind:%r" % (i, a.get("k"))
+
+    @Directive("req", schema_name=sn)
+    class Req:
+        async def on_field_execution(self, directive_args, next_resolver, parent, args, ctx, info):
+            r = await next_resolver(parent, args, ctx, info)
+            return "%s|req%d:%r" % (r, i, directive_args.get("label"))
 
     @Resolver(QN + ".open", schema_name=sn)
     async def open_(p, a, c, info):
